@@ -52,8 +52,19 @@ def spd_graph_like(rng, n):
     return symmetrize([[sum(x[e] * S[e][i] * S[e][j] for e in range(len(S))) for j in range(n)] for i in range(n)])
 
 
+def spd_near_degenerate(rng, n):
+    """B B^T with a unit lower-triangular-like B whose pivots are 1 except one or two of size 2^-13..2^-16: Schur complements
+    1e-8..1e-10 of the diagonal entry they are taken from, condition number 1e8..1e10 (still inside the property's range)"""
+    B = [[(rng.uniform(-1, 1) if j < i else 0.0) for j in range(n)] for i in range(n)]
+    small = set(rng.sample(range(n), 1 if n < 4 else rng.randint(1, 2)))
+    for i in range(n):
+        B[i][i] = 2.0 ** -rng.randint(13, 16) if (i in small and i > 0) else 1.0
+    A = [[sum(B[i][k] * B[j][k] for k in range(n)) for j in range(n)] for i in range(n)]
+    return symmetrize(A)
+
+
 SPD_FAMILIES = [("random", spd_random), ("graded", spd_graded), ("hilbert", spd_hilbert), ("integer", spd_integer),
-                ("graph", spd_graph_like)]
+                ("graph", spd_graph_like), ("near_degenerate", spd_near_degenerate)]
 
 
 def flat_bits(A):
